@@ -5,7 +5,7 @@ V = os.path.dirname(os.path.dirname(os.path.abspath(__file__)))
 props = json.load(open(os.path.join(V, "vx", "props.json")))
 st = json.load(open(os.path.join(V, "vx", "manifest_static.json")))
 checks = []
-for pid in sorted(props):
+for pid in sorted(k for k in props if not k.startswith('_')):
     P = props[pid]
     checks.append({
         "property_id": pid,
